@@ -79,6 +79,7 @@ fn main() {
             "statement" => statement::run(sc),
             "statement_doc" => statement::run_doc(sc),
             "record" => record::run(sc),
+            "run_fs" => record::run_fs(sc),
             "left_strip" => record::run_left_strip(sc),
             "keyid" => keyspki::run_keyid(sc),
             "spki" => keyspki::run_spki(sc),
